@@ -131,6 +131,23 @@ Theorem C05_etag_version_by_value_refuted :
 Proof. exact etag_version_by_value_refuted. Qed.
 Print Assumptions C05_etag_version_by_value_refuted.
 
+(* the theorems are about ONE request per call; with the SDK's automatic re-send of a write that
+   the server applied but answered 5xx: (a) the call fails although it took effect, (b) after
+   A -> B -> A by another client the by-value condition holds again, the write is applied twice
+   and the history has no linearization (assumption "one request per call" in checks/c05.py) *)
+Theorem C05_sdk_retry_refuted :
+  (let s1 := fst (exec dynamo retry_s0 (CReplace retry_h (Some vB)) 1) in
+   snd (exec dynamo s1 (CReplace retry_h (Some vB)) 1) = CRefused /\ lookup (dy_abs s1) idA = Some vB) /\
+  (let s1 := fst (exec dynamo retry_s0 (CReplace retry_h (Some vB)) 1) in
+   let '(s2, r2) := exec dynamo s1 (CReplace retry_hB (Some vA)) 1 in
+   let '(s3, r3) := exec dynamo s2 (CReplace retry_h (Some vB)) 1 in
+   r2 = CReplaced {| dy_id := idA; dy_body := Some vA |} /\
+   r3 = CReplaced {| dy_id := idA; dy_body := Some vB |} /\
+   lookup (dy_abs s3) idA = Some vB /\
+   ~ linearizable reg_step_weak retry_aba_history).
+Proof. exact sdk_retry_refuted. Qed.
+Print Assumptions C05_sdk_retry_refuted.
+
 (* the executable checker used on recorded real histories decides linearizability *)
 Theorem C05_linearizable_b_sound : forall h, linearizable_b h = true -> linearizable reg_step h.
 Proof. exact linearizable_b_sound. Qed.
